@@ -1,3 +1,4 @@
 pub mod arith;
 pub mod defs;
+pub mod query;
 pub mod units;
